@@ -198,6 +198,26 @@ def canon_call(name, args):
     if name == "str::index" and len(args) == 2 and isinstance(args[1], tuple) and len(args[1]) == 3 and args[1][0] == "Range" \
             and args[1][2] == ("str::len", args[0]):
         return name, [args[0], ("RangeFrom", args[1][1])]
+    # `&s[a..][..t.len() - b]` with t = &s[a..] is `&s[a..s.len() - b]`
+    if name == "str::index" and len(args) == 2 and isinstance(args[0], tuple) and args[0][:1] == ("str::index",) and len(args[0]) == 3 \
+            and isinstance(args[0][2], tuple) and args[0][2][:1] == ("RangeFrom",) and isinstance(args[1], tuple) and args[1][:1] == ("RangeTo",) \
+            and len(args[1]) == 2 and isinstance(args[1][1], tuple) and args[1][1][:1] == ("Sub",) and len(args[1][1]) == 3 \
+            and args[1][1][1] == ("str::len", args[0]):
+        base, a_ = args[0][1], args[0][2][1]
+        return name, [base, ("Range", a_, ("Sub", ("str::len", base), args[1][1][2]))]
+    # `a.partial_cmp(&b).is_some_and(Ordering::is_gt)` is `a > b` (also for unordered operands: both are false)
+    if name == "Option::is_some_and" and len(args) == 2 and isinstance(args[0], tuple) and len(args[0]) == 3 and \
+            str(args[0][0]).endswith("::partial_cmp") and isinstance(args[1], str) and args[1].startswith("fn Ordering::is_"):
+        ty_ = args[0][0][:-len("::partial_cmp")]
+        a_, b_ = args[0][1], args[0][2]
+        which = args[1][len("fn Ordering::is_"):]
+        prim = ty_ in ("i8", "i16", "i32", "i64", "i128", "isize", "u8", "u16", "u32", "u64", "u128", "usize", "f32", "f64", "bool", "char")
+        table = {"gt": ("lt", b_, a_), "ge": ("le", b_, a_), "lt": ("lt", a_, b_), "le": ("le", a_, b_)}
+        if which in table:
+            op_, x_, y_ = table[which]
+            if prim:
+                return ("Lt" if op_ == "lt" else "Le"), [x_, y_]
+            return "%s::%s" % (ty_, op_), [x_, y_]
     return name, args
 
 
